@@ -131,8 +131,7 @@ func (c *Cyclist) stateCopyAndAddBytes(in, out []byte) {
 			if i >= length {
 				return
 			}
-			out[i] = byte(c.s[stateIdx] >> shift)
-			out[i] ^= in[i]
+			out[i] = byte(c.s[stateIdx]>>shift) ^ in[i]
 			i++
 		}
 	}
